@@ -158,7 +158,7 @@ def run(jobs):
         for r in ex.map(run_one, d["survivors"]):
             results.append(r)
             print(r["id"], r["file"], r["line"], r["what"], "DETECTED" if r.get("detected") else "survives-checks", {p: c["exit"] for p, c in r["checks"].items()}, flush=True)
-    json.dump(dict(stats=d["stats"], results=results), open(os.path.join(ROOT, "selftest", "mutgen_results.json"), "w"), indent=1)
+    json.dump(dict(stats=d["stats"], results=results), open(os.path.join(ROOT, "selftest", "mutgen_results%s.json" % ("" if os.environ.get("VERIF_SEED", "1") == "1" else "_seed" + os.environ["VERIF_SEED"])), "w"), indent=1)
     det = sum(1 for r in results if r.get("detected"))
     print("survivors of the repository's tests: %d; reported by the checks: %d; not reported: %d" % (len(results), det, len(results) - det))
 
